@@ -42,7 +42,10 @@ def build(variant='plain', targets=None):
     fcntl.flock(lock, fcntl.LOCK_EX)
     try:
         t0 = time.time()
-        if not os.path.exists(os.path.join(bdir, 'build.ninja')):
+        bn = os.path.join(bdir, 'build.ninja')
+        cm = [os.path.join(HARNESS, f) for f in os.listdir(HARNESS) if f.endswith('.cmake') or f == 'CMakeLists.txt']
+        stale = (not os.path.exists(bn)) or any(os.path.getmtime(f) > os.path.getmtime(bn) for f in cm)
+        if stale:
             args = ['cmake', '-G', 'Ninja', '-S', HARNESS, '-B', bdir, '-DOVM_REPO=' + REPO,
                     '-DCMAKE_BUILD_TYPE=RelWithDebInfo']
             if variant == 'san':
